@@ -11,6 +11,7 @@ package internal
 import (
 	"bufio"
 	"bytes"
+	"fmt"
 	"io"
 	"math/rand"
 	"net/http/httputil"
@@ -332,6 +333,16 @@ func TestVerif_C04_chunk(t *testing.T) {
 		reached["single-fault"]++
 		runStream(st)
 	}
+	for _, st := range c04ExcessBoundary() {
+		s.Count("excess-boundary")
+		reached["excess-boundary"]++
+		if strings.HasPrefix(c04ChunkRun(NewChunkedReader, []byte(st), 4096, 0, 4096), "eof") {
+			reached["excess-boundary-accepted"]++
+		} else {
+			reached["excess-boundary-refused"]++
+		}
+		runStream(st)
+	}
 	for c := 0; c < n; c++ {
 		stream, tags := c04GenChunked(r)
 		if r.Intn(6) == 0 && len(stream) > 0 {
@@ -359,7 +370,7 @@ func TestVerif_C04_chunk(t *testing.T) {
 		runStream(stream)
 	}
 	s.Finish()
-	for _, need := range []string{"single-fault", "byte-position", "eof", "err", "err:eof", "err:chunk", "err:toolong", "gen:ext", "gen:ext-long", "gen:size-empty", "gen:size-bad", "gen:hex16", "gen:bad-crlf", "gen:cut", "gen:mutated", "gen:excess-long-ext", "gen:excess-many"} {
+	for _, need := range []string{"single-fault", "byte-position", "eof", "err", "err:eof", "err:chunk", "err:toolong", "gen:ext", "gen:ext-long", "gen:size-empty", "gen:size-bad", "gen:hex16", "gen:bad-crlf", "gen:cut", "gen:mutated", "gen:excess-long-ext", "gen:excess-many", "excess-boundary", "excess-boundary-accepted", "excess-boundary-refused"} {
 		if reached[need] == 0 {
 			t.Errorf("C04/chunk never reached %q", need)
 		}
@@ -419,5 +430,87 @@ func c04ChunkBytePositions() []c04ChunkBytePos {
 	at("5\r\nhello", "\r\n", "0\r\n\r\nREST")
 	at("5\r\nhello\r\n", "0\r\n", "\r\nREST")
 	at("5\r\nhello\r\n", "000;e\r\n", "\r\nREST")
+	return out
+}
+
+// c04ExcessBoundary (round 5): chunked bodies whose overhead balance (`chunkedReader.excess`:
+// + len(size line incl. LF) + 2, - 16 - 2*n per chunk, clamped at 0, error above 16 KiB after a
+// data chunk) lands at the limit -1 / +0 / +1 / +2, reached through every kind of non-data byte:
+// extensions, blanks before the CRLF, zero padding, many small chunks (lines that fit a 64-byte
+// buffer), bare-LF line ends, with refunds by data-rich chunks before (clamp at 0) and in between,
+// and the last-chunk line, which is never refused for overhead.
+func c04ExcessBoundary() []string {
+	const limit = 16 * 1024
+	var out []string
+	// a size line of exactly L bytes, EOL included
+	ext := func(sz string, L int, eol string) string {
+		return sz + ";" + strings.Repeat("x", L-len(sz)-1-len(eol)) + eol
+	}
+	blanks := func(sz string, L int, eol string) string {
+		return sz + strings.Repeat(" ", (L-len(sz)-len(eol))/2) + strings.Repeat("\t", L-len(sz)-len(eol)-(L-len(sz)-len(eol))/2) + eol
+	}
+	chunk := func(line string, n int) string { return line + strings.Repeat("D", n) + "\r\n" }
+	type step struct {
+		L, n int
+		mk   func(sz string, L int, eol string) string
+		eol  string
+	}
+	build := func(pre []step, fin step, delta int, lastLine string) (string, bool) {
+		ex := 0
+		var sb strings.Builder
+		for _, s := range pre {
+			sb.WriteString(chunk(s.mk(fmt.Sprintf("%x", s.n), s.L, s.eol), s.n))
+			ex += s.L + 2 - 16 - 2*s.n // the line as ReadSlice returns it (CR and LF included) + 2
+			if ex < 0 {
+				ex = 0
+			}
+		}
+		// length of the final line that puts the balance at limit + delta
+		L := limit + delta - ex - 2 + 16 + 2*fin.n
+		sz := fmt.Sprintf("%x", fin.n)
+		if fin.L < 0 { // zero padded to 16 digits
+			sz = fmt.Sprintf("%016x", fin.n)
+		}
+		if L >= 4096 || L < len(sz)+1+len(fin.eol) {
+			return "", false
+		}
+		sb.WriteString(chunk(fin.mk(sz, L, fin.eol), fin.n))
+		sb.WriteString(lastLine + "\r\nREST")
+		return sb.String(), true
+	}
+	rep := func(s step, k int) []step {
+		var o []step
+		for i := 0; i < k; i++ {
+			o = append(o, s)
+		}
+		return o
+	}
+	big := step{L: 4000, n: 1, mk: ext, eol: "\r\n"} // +3984 each
+	fams := []struct {
+		pre  []step
+		fin  step
+		last string
+	}{
+		{rep(big, 4), step{n: 1, mk: ext, eol: "\r\n"}, "0\r\n"},
+		{rep(step{L: 4000, n: 1, mk: blanks, eol: "\r\n"}, 4), step{n: 1, mk: blanks, eol: "\r\n"}, "0\r\n"},
+		{rep(big, 4), step{L: -1, n: 1, mk: ext, eol: "\r\n"}, "0\r\n"},
+		{rep(big, 4), step{n: 1, mk: ext, eol: "\n"}, "0\r\n"},
+		{rep(step{L: 4000, n: 1, mk: ext, eol: "\n"}, 4), step{n: 1, mk: blanks, eol: "\n"}, "0\r\n"},
+		{rep(step{L: 56, n: 1, mk: ext, eol: "\r\n"}, 409), step{n: 1, mk: ext, eol: "\r\n"}, "0\r\n"},
+		{rep(step{L: 36, n: 1, mk: ext, eol: "\r\n"}, 815), step{n: 1, mk: ext, eol: "\r\n"}, "0\r\n"},
+		{append([]step{{L: 5, n: 1000, mk: blanks, eol: "\r\n"}}, rep(big, 4)...), step{n: 1, mk: ext, eol: "\r\n"}, "0\r\n"},
+		{append(rep(big, 4), step{L: 4, n: 100, mk: blanks, eol: "\r\n"}), step{n: 1, mk: ext, eol: "\r\n"}, "0\r\n"},
+		{append(rep(big, 2), append([]step{{L: 5, n: 2000, mk: blanks, eol: "\r\n"}}, rep(big, 4)...)...), step{n: 1, mk: ext, eol: "\r\n"}, "0\r\n"},
+		{rep(big, 4), step{n: 7, mk: ext, eol: "\r\n"}, "0\r\n"},
+		{rep(big, 4), step{n: 1, mk: ext, eol: "\r\n"}, "0;" + strings.Repeat("y", 4000) + "\r\n"},
+		{rep(big, 4), step{n: 1, mk: ext, eol: "\r\n"}, "1;z\r\nD\r\n0\r\n"},
+	}
+	for _, f := range fams {
+		for _, d := range []int{-1, 0, 1, 2} {
+			if st, ok := build(f.pre, f.fin, d, f.last); ok {
+				out = append(out, st)
+			}
+		}
+	}
 	return out
 }
